@@ -96,6 +96,12 @@ Theorem C07_refuted_D71 : exists g st sun occs, Forall occ_ok occs /\ nondecr 1 
 Proof. exact refuted_D71. Qed.
 Print Assumptions C07_refuted_D71.
 
+(* D72: the legacy subsystem measures hold_off per repeated trigger decorator, not per function *)
+Theorem C07_refuted_D72 : exists g st sun occs, Forall occ_ok occs /\ nondecr 1 occs /\ hold_nonneg g /\
+  accepted_legacy only_D72 g st sun occs <> accepted_spec g st sun occs.
+Proof. exact refuted_D72. Qed.
+Print Assumptions C07_refuted_D72.
+
 (* whatever behaviour of the implementation the conformant Model reproduces satisfies the property *)
 Theorem C07_model_implies_spec : forall cfg c, all_off cfg -> gcase_wf c -> gcase_model_ok cfg c = true -> gcase_spec_ok c = true.
 Proof. exact gcase_model_implies_spec. Qed.
